@@ -1011,6 +1011,8 @@ def _as_dtype(I, r, dt):
     """the array in the requested element type; without a request numpy's inference: all-int stays int, a mixture of
     ints and floats becomes float"""
     if dt is None:
+        if Mo.nd_has_none(I, r):
+            return r                    # object array: nothing is cast, None stays None
         dt = Mo.nd_dtype(I, r)
         if dt == 'bool':
             return r
@@ -1262,7 +1264,11 @@ def np_sort(I, a, k):
     if k or len(a) > 1:
         raise Unsupported('numpy.sort with options')
     if Mo.is_list(x) and x.kind == 'clist' and any(Mo.is_list(y) for y in I.st.heap[x]):
-        raise Unsupported('numpy.sort of a 2-d array')
+        rows = I.st.heap[x]                 # 2-d: numpy sorts along the LAST axis, i.e. every row on its own
+        if any(not Mo.is_list(y) or any(Mo.is_list(z) for z in (Mo.seq_items(I, y) or [None])) for y in rows):
+            raise Unsupported('numpy.sort of an array of more than two dimensions / ragged')
+        out = I.st.alloc('clist', [np_sort(I, [y], {}) for y in rows], nd=True)
+        return out
     r = b_sorted(I, [x], {})
     r.nd = True
     return _as_dtype(I, r, None)
